@@ -25,9 +25,7 @@ type pendingRead struct {
 
 func runC12PacketTrace(ops []c12Op) (trace []string, finalLost []int, findings []MonitorFinding) {
 	mgr := service.NewListenerManager()
-	l0, _ := net.ListenPacket("udp", "127.0.0.1:0")
-	addr := l0.LocalAddr().String()
-	l0.Close()
+	addr := fmt.Sprintf("127.0.0.1:%d", freeLowPorts(1))
 	g0 := runtime.NumGoroutine()
 	var handles []net.PacketConn
 	closedH := map[int]bool{}
